@@ -1,4 +1,4 @@
-HOOK_COMMITS = ["6c92ace", "87d794e"]
+HOOK_COMMITS = ["6c92ace", "87d794e", "4055187"]
 NOT_APPLICABLE = {}
 CHECKS = {
  "C03": {
@@ -11,14 +11,14 @@ CHECKS = {
   "note": 'A Gallina function is deterministic by construction; the content of this property is in the execution and the census.',
  },
  "C09": {
-  "text": "Coq: executable model of the encoder and the request side of the cache (Async/Encoder.v) with the property proven about it for every provider, problem, cache contents, trail history and encode-request sequence: C09_model_once (nothing requested twice over the cache lifetime), C09_model_causal, C09_model_lazy (no hints: dependencies only for solvables the solver assigned true), C09_model_exact. The model is run on the encode requests of every synchronous real solve and must reproduce the provider-call sequence call for call. In addition declarative predicates over provider-call histories (Causal, Once, Exact in Async/History.v) with executable checkers proven equivalent for every provider and every history (causalb_spec, onceb_spec, exactb_spec). The real solver's call history (no hints; 1-3 solves per solver; sync and yielding runtimes) is judged by the extracted checkers; exactness is checked whenever the verified greedy oracle applies.",
+  "text": "Coq: executable model of the encoder and the request side of the cache (Async/Encoder.v) with the property proven about it for every provider, problem, cache contents, trail history, encode-request sequence and completion order: C09_model_once (nothing requested twice over the cache lifetime), C09_model_causal, C09_model_lazy (no hints: dependencies only for solvables the solver assigned true), C09_model_exact. The model is run on the encode requests and future completions of every real solve and must reproduce the provider-call sequence call for call on synchronous runs (where completions must also be first-in first-out) and the candidates/dependencies requests as a multiset on asynchronous ones. In addition declarative predicates over provider-call histories (Causal, Once, Exact in Async/History.v) with executable checkers proven equivalent for every provider and every history (causalb_spec, onceb_spec, exactb_spec). The real solver's call history (no hints; 1-3 solves per solver; sync and yielding runtimes) is judged by the extracted checkers; exactness is checked whenever the verified greedy oracle applies.",
   "technique": "Coq theorems about an executable encoder+cache model (once / causal / lazy / exact for all inputs) in call-for-call correspondence with the implementation + Coq-verified history checkers on real provider-call histories",
-  "note": "The model fixes the synchronous completion order; asynchronous completions and successive solves on one solver are judged by the verified history checkers on real histories.",
+  "note": "The model completes one future atomically (provider calls + result handler): the order of calls of overlapping futures and successive solves on one solver are judged by the verified history checkers on real histories.",
  },
  "C10": {
-  "text": "Every case is solved under completion orders chosen by a schedule-controlled executor (FIFO, LIFO, random, bounded depth-first enumeration of alternatives at every choice point) with deadlock detection that needs no timeout; per schedule: termination, verdict equal to the synchronous one, solution valid per the verified oracle o_valid, no repeated provider request per the verified history checker onceb (C10_*).",
-  "technique": "schedule enumeration on the real solver judged by Coq-verified validity oracle and history checker",
-  "note": "Theorems are the oracles' correctness (o_valid_spec, onceb_spec, o_solvable_spec); schedule-independence of the encoder itself is explored, not proved.",
+  "text": "Coq: the encoder + cache model takes the completion order of its futures as input (enc_run: the events say which pending future completes next) and the property is proven about it for EVERY order: only facts are added (C10_any_order_adds_facts), everything requested is completely encoded once nothing is pending (C10_any_order_complete), no candidates / dependencies / filter request is repeated (C10_any_order_once); two accepted runs of one problem cannot disagree on the verdict (C10_verdicts_agree, from the trace theorems of C01/C02). Tie: on runs under gated (FIFO/LIFO/random) and self-waking runtimes the model follows the logged completion order and must reproduce the clause database clause for clause and the candidates/dependencies requests; the same logs go through the trace checkers. In addition every case is solved under completion orders chosen by a schedule-controlled executor (FIFO, LIFO, random, bounded depth-first enumeration of alternatives at every choice point) with deadlock detection that needs no timeout; per schedule: termination, verdict equal to the synchronous one, solution valid per the verified oracle o_valid, no repeated provider request per the verified history checker onceb (C10_*).",
+  "technique": "Coq theorems about the encoder model for every completion order (facts, completeness, at-most-once, verdict agreement) in clause-for-clause correspondence under controlled schedules + schedule enumeration on the real solver judged by Coq-verified validity oracle and history checker",
+  "note": "Termination under every schedule is observed (deadlock detection without timeouts), not proved; the model completes a future atomically, the in-flight protocol between overlapping futures is C13's model.",
  },
  "C11": {
   "text": "Coq: Eager predicate (at every quiescent point every candidates request implied by obtained dependency information has been issued) with checker proven equivalent (eagerb_spec). The schedule-controlled executor logs every quiescent point of the real solver (Pending without self-wake) on fan-out universes with up to 16 root requirements, unions and nested fan-outs; the extracted checker judges the histories.",
@@ -66,7 +66,7 @@ CHECKS = {
   "technique": "Coq refinement proof of a functional model + in-Coq functional correspondence on operation sequences",
  },
  "C02": {
-  "text": 'Coq: E1 (every valid selection satisfies every encoder clause), RUP soundness, check_unsat_sound: a database of facts and learnt clauses certified by RUP from their recorded antecedents that propagates to a root-level conflict admits no valid selection (C02_trace_no_false_unsat), hence a solvable problem is never acceptably refuted. Every Unsolvable hook log goes through the extracted checker; every verdict is compared with the verified complete reference procedure. The executable encoder model is proven to add only facts for every request sequence and trail history (C02_encoder_adds_facts, C02_encoder_sound) and is compared with the clause database of the implementation clause for clause on every synchronous run.',
+  "text": 'Coq: E1 (every valid selection satisfies every encoder clause), RUP soundness, check_unsat_sound: a database of facts and learnt clauses certified by RUP from their recorded antecedents that propagates to a root-level conflict admits no valid selection (C02_trace_no_false_unsat), hence a solvable problem is never acceptably refuted. Every Unsolvable hook log goes through the extracted checker; every verdict is compared with the verified complete reference procedure. The executable encoder model is proven to add only facts for every request sequence, trail history and completion order (C02_encoder_adds_facts, C02_encoder_sound) and is compared with the clause database of the implementation clause for clause on every run.',
   "technique": 'Coq refutation-certificate theorem (facts + RUP-checked learnt clauses) + verified trace checker + verified reference decision procedure',
   "note": "Termination of the CDCL loop is observed (poll watchdog), not proved: 'returns a solution whenever one exists' is proved for runs that end.",
  },
@@ -90,7 +90,7 @@ CHECKS = {
   "note": 'Soft requirements are outside the theorem (explored only).',
  },
  "C01": {
-  "text": "Coq: E2 (a model of a closed clause database selects a valid set, any provider), final-state theorem check_sat_lenient_sound, and trace inclusion C01_trace_sound: if the extracted checker accepts the implementation's hook log (clause dump = facts of the encoding, legal trail events, reported solution) the solution is valid. Independently every returned solution (debug+release, sync+yield) is judged by the verified oracle o_valid. The encoder itself (encoding.rs + cache.rs request side) has an executable Coq model, proven complete for every request sequence and trail history (C01_encoder_complete, C01_encoder_model_valid) and compared with the implementation clause for clause on every synchronous run.",
+  "text": "Coq: E2 (a model of a closed clause database selects a valid set, any provider), final-state theorem check_sat_lenient_sound, and trace inclusion C01_trace_sound: if the extracted checker accepts the implementation's hook log (clause dump = facts of the encoding, legal trail events, reported solution) the solution is valid. Independently every returned solution (debug+release, sync+yield) is judged by the verified oracle o_valid. The encoder itself (encoding.rs + cache.rs request side) has an executable Coq model, proven complete for every request sequence, trail history and completion order of its futures (C01_encoder_complete, C01_encoder_model_valid) and compared with the implementation clause for clause on every run (synchronous, self-waking and gated runtimes; the model follows the logged completion order).",
   "technique": 'Coq theorem over all runs of an abstract CDCL machine + verified trace checker on hook logs + Coq-verified validity oracle on outputs',
  },
 }
